@@ -880,7 +880,9 @@ def formula_grammar(table):
     # as "2L" would otherwise be read by the compound parser as a count followed
     # by the unknown element L.
     formula = (ungrouped_mixture | compound | grouped_mixture)
-    grammar = Optional(formula, default=Formula()) + StringEnd()
+    # Note: each parse of a blank string needs its own empty formula; a default
+    # Formula() instance here would be shared by every blank formula of the table.
+    grammar = Optional(formula, default=None) + StringEnd()
 
     grammar.setName('Chemical Formula')
     return grammar
@@ -894,7 +896,8 @@ def parse_formula(formula_str, table=None):
     table = default_table(table)
     if table not in _PARSER_CACHE:
         _PARSER_CACHE[table] = formula_grammar(table)
-    return _PARSER_CACHE[table].parseString(formula_str)[0]
+    result = _PARSER_CACHE[table].parseString(formula_str)[0]
+    return Formula() if result is None else result
 
 def _count_atoms(seq):
     """
